@@ -62,11 +62,18 @@ VSlotForms == {<<>>,
 
 Opts(eos, opt) == [DefaultOpts EXCEPT !.enableObjectSlots = eos, !.optimize = opt]
 
+(* `v-slots` followed by an attribute whose value is a JSX element: the slots stay with the component they are written on *)
+VSlotThenElemAttr ==
+  {[host |-> h, children |-> cs, vslots |-> vs \o <<Plain("icon", AvElem(Elem(TagComp("Baz", FALSE, Undef), <<Plain("size", AvStr(<<"a">>))>>, <<>>)))>>,
+    opts |-> Opts(TRUE, opt), ctx |-> "module"] :
+     h \in {TagComp("Foo", TRUE, Opq("vFoo"))}, cs \in {<<>>, <<ChText(<<"a">>)>>, <<ChExpr(Ident("cu", FALSE, PVNode("pv1")))>>},
+     vs \in VSlotForms \ {<<>>}, opt \in BOOLEAN}
+
 Raw == {[host |-> h, children |-> cs, vslots |-> vs, opts |-> Opts(eos, opt), ctx |-> cx] :
           h \in Hosts, cs \in ChildShapes, vs \in VSlotForms, eos \in BOOLEAN, opt \in BOOLEAN, cx \in Contexts}
 
 CaseSeq ==
-  LET raw == SetToSeq(Raw) IN
+  LET raw == SetToSeq(Raw) \o SetToSeq(VSlotThenElemAttr) IN
   [i \in 1..Len(raw) |->
      [case |-> "C03-" \o ToString(i), prop |-> "C03", opts |-> raw[i].opts,
       lang |-> IF \E j \in 1..Len(raw[i].children) : raw[i].children[j].k = "expr" /\ raw[i].children[j].e.k = "wrap"
